@@ -44,6 +44,7 @@ Example C18_pq_example :
 Proof. vm_compute. split; reflexivity. Qed.
 
 (* --- component finder ----------------------------------------------------------------------- *)
+Local Open Scope nat_scope.
 
 (* For every sequence of (well-formed) merges and finds on any initial value set, find returns a
    member of x's connected component that is <= every member: the minimum. *)
